@@ -1255,6 +1255,16 @@ func (sc *serverConn) handleHeaderFrame(strm *Stream, fr *FrameHeader) error {
 			// truncated field is a decoding error.
 			if errors.Is(err, ErrUnexpectedSize) && len(pb) > 0 && !fr.Flags().Has(FlagEndHeaders) {
 				err = nil
+
+				// The unfinished field is kept until the next frame completes
+				// it. Its encoded form is at most 30/8 of its decoded size
+				// (the longest Huffman code), so one that is already four
+				// times the whole permitted list can only end in a refusal:
+				// refuse now instead of buffering whatever the peer sends.
+				if sc.maxHeaderList > 0 && len(pb) > 4*sc.maxHeaderList {
+					return NewGoAwayError(EnhanceYourCalm, "header list exceeds the maximum size")
+				}
+
 				strm.previousHeaderBytes = append(strm.previousHeaderBytes, pb...)
 			} else {
 				err = NewGoAwayError(CompressionError, err.Error())
